@@ -69,7 +69,7 @@ CONSTANTS Traces,      \* trace ids (strings)
           Decisions,   \* subset of {"Keep", "Drop", "Error", "Panic"}
           Timeouts     \* subset of BOOLEAN: may the sampler call of a merge time out
 
-VARIABLES parts,    \* set of [id, tbl, mem, frags, idx]
+VARIABLES parts,    \* set of [id, tbl, mem, frags, idx, lo, hi]; [lo, hi] = time bounds in the part metadata
           nextId,
           epoch,    \* number of snapshot publications of table X
           acked,    \* every fragment ever acknowledged
@@ -90,7 +90,7 @@ CovMin == 0
 CovMax == SegSplit - 1
 
 PartsX == { p \in parts : p.tbl = "X" }
-Obj(p) == [id |-> p.id, mem |-> p.mem, frags |-> p.frags]   \* a part object; its content never changes
+Obj(p) == [id |-> p.id, mem |-> p.mem, frags |-> p.frags, lo |-> p.lo, hi |-> p.hi]   \* a part object; its content never changes
 AllVisible == UNION { p.frags : p \in parts }
 Index == UNION { p.idx : p \in parts }
 Visible(t) == Of(t, AllVisible)
@@ -122,7 +122,8 @@ Write(T, tsOf) ==
   /\ \A t, u \in T : TblOf(tsOf[t]) = TblOf(tsOf[u])
   /\ LET F == { [t |-> t, k |-> NextK(t), ts |-> tsOf[t]] : t \in T }
          tbl == TblOf(tsOf[CHOOSE t \in T : TRUE])
-     IN /\ parts' = parts \cup { [id |-> nextId, tbl |-> tbl, mem |-> TRUE, frags |-> F, idx |-> F] }
+     IN /\ parts' = parts \cup { [id |-> nextId, tbl |-> tbl, mem |-> TRUE, frags |-> F, idx |-> F,
+                                   lo |-> Min(TS(F)), hi |-> Max(TS(F))] }
         /\ acked' = acked \cup F
         /\ epoch' = IF tbl = "X" THEN epoch + 1 ELSE epoch
         /\ last' = [op |-> "write", tbl |-> tbl, part |-> nextId, frags |-> F]
@@ -142,7 +143,7 @@ Flush ==
 ---------------------------------------------------------------------------
 \* ---- merge --------------------------------------------------------------
 Window(t, F) == [lo |-> Min(TS(Of(t, F))) - Grace, hi |-> Max(TS(Of(t, F))) + Grace]
-Overlaps(p, w) == p.frags # {} /\ Max(TS(p.frags)) >= w.lo /\ Min(TS(p.frags)) <= w.hi
+Overlaps(p, w) == p.frags # {} /\ p.hi >= w.lo /\ p.lo <= w.hi
 InCoverage(w) == w.lo >= CovMin /\ w.hi <= CovMax
 
 Eligible(m, kind, fr, F) == { t \in TracesOf(F) : kind = "finalize" \/ Max(TS(Of(t, F))) <= fr }
@@ -150,7 +151,7 @@ Eligible(m, kind, fr, F) == { t \in TracesOf(F) : kind = "finalize" \/ Max(TS(Of
 Selectable(kind, fr) ==
   LET free == { p \in PartsX : p.frags # {} /\ p.id \notin InFlight }
   IN CASE kind = "hot"      -> { I \in SUBSET { p \in free : ~p.mem } : I # {} }
-       [] kind = "finalize" -> LET c == { p \in free : ~p.mem /\ Max(TS(p.frags)) <= fr }
+       [] kind = "finalize" -> LET c == { p \in free : ~p.mem /\ p.hi <= fr }
                                IN IF Sampling /\ c # {} THEN {c} ELSE {}
        [] kind = "mem"      -> LET c == { p \in free : p.mem }
                                IN IF Cardinality(c) >= 2 /\ \A x \in Merges : ~(Active(x) /\ ms[x].kind = "mem")
@@ -161,7 +162,7 @@ MergeStart(m, kind, fr, I, tmo) ==
   /\ I \in Selectable(kind, fr)
   /\ LET F == UNION { p.frags : p \in I }
          X == UNION { p.idx : p \in I }
-         active == Sampling /\ (kind = "finalize" \/ \E p \in I : Min(TS(p.frags)) <= fr)
+         active == Sampling /\ (kind = "finalize" \/ \E p \in I : p.lo <= fr)
          elig == IF active THEN Eligible(m, kind, fr, F) ELSE {}
          decides == elig # {} /\ ~tmo
      IN /\ tmo => elig # {}            \* a time-out needs a sampler call
@@ -233,7 +234,9 @@ Revalidate(m) ==
 
 Publish(m) ==
   /\ parts' = { p \in parts : ~(p.tbl = "X" /\ p.id \in ms[m].inputs) }
-                \cup { [id |-> nextId, tbl |-> "X", mem |-> FALSE, frags |-> ms[m].out, idx |-> ms[m].outIdx] }
+                \cup { [id |-> nextId, tbl |-> "X", mem |-> FALSE, frags |-> ms[m].out, idx |-> ms[m].outIdx,
+                         \* mergeParts: the output inherits the bounds of its inputs, also when traces were dropped
+                         lo |-> Min({ p.lo : p \in InputParts(m) }), hi |-> Max({ p.hi : p \in InputParts(m) })] }
   /\ nextId' = nextId + 1
   /\ epoch' = epoch + 1
   /\ ms' = [ms EXCEPT ![m].pc = "done"]
